@@ -61,6 +61,8 @@ func c10Alphabet(k int) []c10Sym {
 	a = append(a, c10Sym{"app-burst", -1, "A"})
 	// three changes while a connection's own request is being answered
 	a = append(a, c10Sym{"blocked-read-three-changes", 0, ""})
+	// … and forty (more than any small fixed-size queue holds): none is lost, and the application is never made to wait
+	a = append(a, c10Sym{"blocked-read-forty-changes", 0, ""})
 	// one PUT entry carrying "value" and "ev" together
 	for c := 0; c < k; c++ {
 		a = append(a, c10Sym{"write-sub", c, "A"}, c10Sym{"write-unsub", c, "A"})
@@ -303,7 +305,7 @@ func (r *c10Run) step(sym c10Sym) bool {
 			notify(sym.Ch, v, -1)
 		}
 		r.appSet(sym.Ch, ch, v)
-	case "blocked-read-three-changes":
+	case "blocked-read-three-changes", "blocked-read-forty-changes":
 		// the connection's own request is being answered (its handler waits in an application read callback) while
 		// the application changes A three times, back to a value already notified: every change is one EVENT for every
 		// subscriber — for this connection they follow its response
@@ -326,11 +328,30 @@ func (r *c10Run) step(sym c10Sym) bool {
 		}
 		ro.OnValueGet(nil)
 		chA, _ := r.ch("A")
-		for i := 0; i < 3; i++ {
+		changes := 3
+		if sym.Op == "blocked-read-forty-changes" {
+			changes = 40
+		}
+		var vals []interface{}
+		for i := 0; i < changes; i++ {
 			v := r.other("A")
 			r.val["A"] = v
 			notify("A", v, -1)
-			r.appSet("A", chA, v)
+			vals = append(vals, v)
+		}
+		applied := make(chan bool)
+		go func() {
+			for _, v := range vals {
+				r.appSet("A", chA, v)
+			}
+			close(applied)
+		}()
+		select {
+		case <-applied:
+		case <-time.After(30 * time.Second):
+			close(gate)
+			r.fail("application-blocked/"+sym.Op, fmt.Sprintf("%v: the application's value changes do not return within 30 s while a subscribed connection is inside a request of its own", sym))
+			return false
 		}
 		close(gate)
 		if _, _, err := k.Await(); err != nil {
